@@ -246,6 +246,7 @@ class Facts:
         self.g = g
         self.params = [p for p in g.param_names]
         self.bind: dict[str, list[tuple]] = {}
+        self._recvars: dict[str, object] = {}
         for n in own_nodes(g.node):
             if isinstance(n, ast.Assign):
                 for t in n.targets:
@@ -345,12 +346,48 @@ class Facts:
         names = {name} | set(self._up) | set(self._up.values())
         return frozenset(n for n in names if self._find(n) == r)
 
+    def record_var(self, name: str):
+        """`for name in <generator>()` whose every yield constructs the same record class (NamedTuple / dataclass):
+        (iteration source, generator, [(yield, {field: expression inside the generator})]), else None."""
+        if name in self._recvars:
+            return self._recvars[name]
+        self._recvars[name] = None
+        bs = self.bind.get(name, [])
+        if name in self.params or len(bs) != 1 or bs[0][0] != "for" or bs[0][2] is not None:
+            return None
+        w = self.scan.generator_of(self.g, bs[0][1])
+        if w is None or any(isinstance(n, ast.YieldFrom) for n in own_nodes(w.node)):
+            return None
+        ys = []
+        for y in [n for n in own_nodes(w.node) if isinstance(n, ast.Yield)]:
+            fields = self.scan.record_fields(w, y.value) if isinstance(y.value, ast.Call) else None
+            if fields is None:
+                return None
+            ys.append((y, fields))
+        if not ys or len({tuple(f) for _y, f in ys}) != 1:
+            return None
+        self._recvars[name] = (bs[0][1], w, ys)
+        return self._recvars[name]
+
+    def record_field(self, e: ast.expr) -> str | None:
+        """`entry.path` where entry is a record produced by a generator: the field is a value of its own, named `entry.path`."""
+        if isinstance(e, ast.Attribute) and isinstance(e.value, ast.Name) and isinstance(e.ctx, ast.Load):
+            rv = self.record_var(e.value.id)
+            if rv is not None and e.attr in rv[2][0][1]:
+                name = f"{e.value.id}.{e.attr}"
+                if name not in self.bind:
+                    self.bind[name] = [("recfield", e.value.id, e.attr)]
+                return name
+        return None
+
     def alias_name(self, e: ast.expr) -> str | None:
         """Name of the variable whose *path value* this expression denotes (through resolve()/absolute()/Path()/str()), else None."""
         if isinstance(e, ast.Name):
             return e.id
         if id(e) in self.joins:
             return self.joins[id(e)]
+        if isinstance(e, ast.Attribute):
+            return self.record_field(e)
         if isinstance(e, ast.Call):
             f = e.func
             if isinstance(f, ast.Attribute) and f.attr in ALIAS_METHODS and not e.args:
@@ -377,6 +414,8 @@ class Facts:
         for n in R:
             bs = self.bind.get(n, [])
             if len(bs) == 1 and bs[0][0] == "for" and self.scan.generator_of(self.g, bs[0][1]) is not None:
+                return "forgen"
+            if len(bs) == 1 and bs[0][0] == "recfield":
                 return "forgen"
         for n in R:
             bs = self.bind.get(n, [])
@@ -428,6 +467,9 @@ class Facts:
         if isinstance(e, ast.Attribute):
             if isinstance(e.value, ast.Name) and e.value.id in ("self", "cls"):
                 return set()
+            rf = self.record_field(e)
+            if rf is not None:
+                return {rf}
             return self.trace(e.value, seen)
         if isinstance(e, ast.Subscript):
             return self.trace(e.value, seen)
@@ -558,6 +600,33 @@ class Scan:
             return cs[0]
         return None
 
+    def record_fields(self, g: FuncInfo, call: ast.Call) -> dict[str, ast.expr] | None:
+        """field -> argument expression of a call that constructs a plain record (NamedTuple / dataclass without own constructor)."""
+        try:
+            ci = self.T.ctor_class(g, call)
+        except Exception:  # noqa: BLE001
+            return None
+        if ci is None:
+            return None
+        if not (ci.is_dataclass or any(b.rsplit(".", 1)[-1] == "NamedTuple" for b in ci.bases)):
+            return None
+        if any(m in ci.methods for m in ("__init__", "__new__", "__post_init__", "__getattr__", "__getattribute__")):
+            return None
+        names = list(ci.ann_attrs)
+        if any(isinstance(a, ast.Starred) for a in call.args) or any(k.arg is None or k.arg not in names for k in call.keywords) or len(call.args) > len(names):
+            return None
+        out = dict(zip(names, call.args))
+        for k in call.keywords:
+            if k.arg in out:
+                return None
+            out[k.arg] = k.value
+        for n in names:
+            if n not in out:
+                if n not in ci.class_attrs:
+                    return None
+                out[n] = ci.class_attrs[n]
+        return {n: out[n] for n in names}
+
     def is_pred(self, g: FuncInfo, c: ast.Call) -> bool:
         if not isinstance(c.func, (ast.Attribute, ast.Name)) or len(c.args) + len(c.keywords) != 1:
             return False
@@ -592,6 +661,8 @@ class Scan:
             return f_or([f_and([c, self.F(g, e.body, R, env, depth)]), f_and([f_not(c), self.F(g, e.orelse, R, env, depth)])])
         if isinstance(e, ast.NamedExpr):
             return self.F(g, e.value, R, env, depth)
+        if isinstance(e, ast.Attribute) and env and norm(e) in env:
+            return env[norm(e)]
         if isinstance(e, ast.Name):
             if e.id in env:
                 return env[e.id]
@@ -609,6 +680,9 @@ class Scan:
                 t = self.F(g, left, R, env, depth)  # object-or-None values: `x is not None` is the truthiness of x
                 if self._object_or_none(g, left):
                     return t if isinstance(op, ast.IsNot) else f_not(t)
+                nn = self._not_none(g, left, R, depth)
+                if nn is not None:
+                    return nn if isinstance(op, ast.IsNot) else f_not(nn)
                 return self.opaque(g, e, False)
             if isinstance(op, (ast.In, ast.NotIn)) and isinstance(right, (ast.Tuple, ast.List, ast.Set)) and right.elts and self._suffix_of(g, left, R):
                 if all(fold(self.repo, g.module, x, g) == ".py" for x in right.elts):
@@ -707,6 +781,44 @@ class Scan:
                 return bool(rets) and all(r.value is None or (isinstance(r.value, ast.Constant) and r.value.value is None) or self.T.ctor_class(h, r.value) is not None if isinstance(r.value, (ast.Call, ast.Constant)) or r.value is None else False for r in rets)
         return False
 
+    def _not_none(self, g: FuncInfo, e: ast.expr, R: frozenset | None, depth: int) -> Formula | None:
+        """`e is not None` where e is the result of a repo helper: some `return <value>` other than `return None` was taken (its path
+        condition in terms of the tracked path) and that value is not None (an atom of its own unless the value plainly is an object)."""
+        fx = self.facts(g)
+        if isinstance(e, ast.NamedExpr):
+            return self._not_none(g, e.value, R, depth)
+        if isinstance(e, ast.Name):
+            bs = fx.bind.get(e.id, [])
+            if e.id in fx.params or depth > 8:
+                return None
+            if len(bs) == 1 and bs[0][0] == "val":
+                return self._not_none(g, bs[0][1], R, depth + 1)
+            if len(bs) > 1 and all(b[0] == "val" for b in bs) and parent(e) is not None:
+                v = fx.reaching(e)
+                if v is not None:
+                    return self._not_none(g, v, R, depth + 1)
+            return None
+        if not isinstance(e, ast.Call) or depth > 6:
+            return None
+        cs = self.callees(g, e) or self.any_callees(g, e)
+        if len(cs) != 1:
+            return None
+        h = cs[0]
+        if isinstance(h.node, ast.Lambda) or h.is_abstract or any(isinstance(n, (ast.Yield, ast.YieldFrom)) for n in own_nodes(h.node)):
+            return None
+        Rh = self.bind_args(g, e, h, R)
+        parts = []
+        for r in [n for n in own_nodes(h.node) if isinstance(n, ast.Return)]:
+            v = r.value
+            if v is None or (isinstance(v, ast.Constant) and v.value is None):
+                continue
+            gr = self.guard(h, r, Rh, {}, depth + 1)
+            plain = isinstance(v, (ast.Constant, ast.JoinedStr, ast.List, ast.Tuple, ast.Dict, ast.Set, ast.ListComp, ast.SetComp, ast.DictComp, ast.GeneratorExp, ast.Compare, ast.Lambda))
+            if isinstance(v, ast.Call):
+                plain = self.T.ctor_class(h, v) is not None or (isinstance(v.func, ast.Attribute) and v.func.attr in CONTENT_METHODS - {"open"} | {"join", "format", "resolve", "absolute"}) or (isinstance(v.func, ast.Name) and v.func.id in ("str", "list", "tuple", "set", "dict", "frozenset", "sorted", "bool", "int", "len", "repr")) or lib_name(self.repo, h, v) == "ast.parse"
+            parts.append(gr if plain else f_and([gr, atom(f"{g.qualname}:{norm(e, 60)} -> {norm(v, 60)} is not None")]))
+        return f_or(parts)
+
     def call_truth(self, g: FuncInfo, call: ast.Call, h: FuncInfo, R: frozenset | None, depth: int) -> Formula | None:
         """Truth condition of the result of `h(...)` called from g, in terms of the tracked path."""
         if any(isinstance(n, (ast.Yield, ast.YieldFrom)) for n in own_nodes(h.node)):
@@ -779,7 +891,7 @@ class Scan:
         out: dict[int, Formula] = {}
         self._reach_cache[key] = out
         canon = {a[1] for a in _CANON}
-        Rn = set(R or ())
+        Rn = set(R or ()) | {n.split(".", 1)[0] for n in (R or ()) if "." in n and not n.startswith("<")}
 
         def deps(name: str) -> set[str]:
             if name in canon:
@@ -933,6 +1045,26 @@ class Scan:
                     outs.append(f_and([local, t]))
             return outs or [local]
         if k == "forgen":
+            rec = next((fx.bind[n][0] for n in R if len(fx.bind.get(n, [])) == 1 and fx.bind[n][0][0] == "recfield"), None)
+            if rec is not None:
+                # `for entry in walk(): ... entry.path ...`: each yield constructs the record; its other fields are known values
+                _k, var, fld = rec
+                _it, w, ys = fx.record_var(var)
+                fw = self.facts(w)
+                outs = []
+                for y, fields in ys:
+                    pe = fields[fld]
+                    an = fw.alias_name(pe)
+                    rs = fw.roots(pe)
+                    Rw = rs[0] if len(rs) == 1 else (fw.cls_of(an) if an is not None else None)
+                    env_y = dict(env or {})
+                    for f2, ye in fields.items():
+                        if f2 != fld:
+                            env_y[f"{var}.{f2}"] = self.F(w, ye, Rw, {})
+                    loc_y = self.guard(g, node, R, env_y)
+                    for t in self.totals(w, y, Rw, depth + 1):
+                        outs.append(f_and([loc_y, t]))
+                return outs or [local]
             n = next(n for n in R if len(fx.bind.get(n, [])) == 1 and fx.bind[n][0][0] == "for" and self.generator_of(g, fx.bind[n][0][1]) is not None)
             _k, it, idx, target = fx.bind[n][0]
             w = self.generator_of(g, it)
